@@ -12,6 +12,7 @@ import cbor2
 import importlib.util
 import sys
 import os
+from collections.abc import Mapping
 from pathlib import Path
 from suit_generator.suit_sign_script_base import (
     SuitEnvelopeSignerBase,
@@ -36,6 +37,16 @@ def _import_module_from_path(module_name: str, file_path: Path):
     sys.modules[module_name] = module
     spec.loader.exec_module(module)
     return module
+
+
+def _mutable_envelope(envelope):
+    """Return the envelope with a modifiable content map.
+
+    Recent cbor2 releases decode the content of a tag into an immutable mapping, signing needs to modify it.
+    """
+    if isinstance(envelope, cbor2.CBORTag) and isinstance(envelope.value, Mapping):
+        return cbor2.CBORTag(envelope.tag, dict(envelope.value))
+    return envelope
 
 
 def _import_signer(sign_script: Path) -> SuitEnvelopeSignerBase:
@@ -151,7 +162,7 @@ class RecursiveSigner:
         if not isinstance(dependency_envelope, cbor2.CBORTag):
             raise ValueError(f"Dependency {dependency_name} in {self.envelope_name} is not a valid envelope.")
 
-        return dependency_envelope
+        return _mutable_envelope(dependency_envelope)
 
     def _sign(self):
         self.envelope = self.signer.sign_envelope(
@@ -265,7 +276,7 @@ def load_envelope(input_file: Path) -> cbor2.CBORTag:
     """Load suit envelope."""
     with open(input_file, "rb") as fh:
         envelope = cbor2.load(fh)
-    return envelope
+    return _mutable_envelope(envelope)
 
 
 def save_envelope(output_file: Path, envelope) -> None:
